@@ -45,6 +45,9 @@ func vUseNames(k int) {
 		vOptTable = [nOpts]vOptDecl{{'a', "aa", true}, {'b', "bb", true}, {'o', "oo", false}, {'e', "ee", false}}
 	case 1:
 		vOptTable = [nOpts]vOptDecl{{'4', "ipv4", true}, {'k', "keepGoing", true}, {'o', "outDir", false}, {'6', "e_6-x", false}}
+	case 2:
+		// long names sharing a prefix (and one being a prefix of another): only exact names match
+		vOptTable = [nOpts]vOptDecl{{'a', "xa", true}, {'b', "xab", true}, {'o', "xo", false}, {'e', "xe", false}}
 	}
 }
 
@@ -123,6 +126,17 @@ type vAppCfg struct {
 // vCustomFlags: the two flags of the table are user-defined value types (flag.Value with
 // IsBoolFlag() == true) instead of BoolOpt: everything said about flags holds for them.
 var vCustomFlags bool
+
+// vCustomVals: the two valued options are user-defined multi-valued types that do
+// have an IsBoolFlag method - answering false.
+var vCustomVals bool
+
+type vUserList struct{ vals []string }
+
+func (l *vUserList) String() string     { return "list" }
+func (l *vUserList) IsBoolFlag() bool   { return false }
+func (l *vUserList) Clear()             { l.vals = nil }
+func (l *vUserList) Set(s string) error { l.vals = append(l.vals, s); return nil }
 
 type vUserFlag struct{ on bool }
 
@@ -222,10 +236,22 @@ func vBuildTable(cfg vAppCfg) *vTableApp {
 		}
 	}
 	if mask&4 != 0 {
-		o = app.Strings(StringsOpt{Name: vNamesOf(oO), Value: defO, EnvVar: envOf("VO"), SetByUser: &user[oO]})
+		if vCustomVals {
+			lo := &vUserList{vals: append([]string(nil), defO...)}
+			app.Var(VarOpt{Name: vNamesOf(oO), Value: lo, EnvVar: envOf("VO"), SetByUser: &user[oO]})
+			o = &lo.vals
+		} else {
+			o = app.Strings(StringsOpt{Name: vNamesOf(oO), Value: defO, EnvVar: envOf("VO"), SetByUser: &user[oO]})
+		}
 	}
 	if mask&8 != 0 {
-		e = app.Strings(StringsOpt{Name: vNamesOf(oE), Value: defE, EnvVar: envOf("VE"), SetByUser: &user[oE]})
+		if vCustomVals {
+			le := &vUserList{vals: append([]string(nil), defE...)}
+			app.Var(VarOpt{Name: vNamesOf(oE), Value: le, EnvVar: envOf("VE"), SetByUser: &user[oE]})
+			e = &le.vals
+		} else {
+			e = app.Strings(StringsOpt{Name: vNamesOf(oE), Value: defE, EnvVar: envOf("VE"), SetByUser: &user[oE]})
+		}
 	}
 	if !cfg.argsFirst {
 		declArgs()
